@@ -44,6 +44,15 @@ def section(kind, types=None, ops=None):
         return {t: {OPN.POLL: P.ALLOW_ALL} for t in types}
     if kind == 'type_missing':
         return {OT.TEMPLATE: {o: P.ALLOW_ALL for o in ops}} if OT.TEMPLATE not in types else {}
+    if kind in ('MIXED', 'MIXED2'):
+        # NON-uniform sections: each object type has its own operation map, with different
+        # permissions for the same operation and operations one type lists and another does not
+        cyc = [P.ALLOW_ALL, P.ALLOW_OWNER, P.DISALLOW_ALL]
+        out = {}
+        for i, t in enumerate(types):
+            k = i + (1 if kind == 'MIXED2' else 0)
+            out[t] = {o: cyc[(k + j) % 3] for j, o in enumerate(ops) if (j + k) % 4 != 0}
+        return out
     raise ValueError(kind)
 
 
@@ -67,6 +76,41 @@ def make_policy(preset_kind, g1_kind, g2_kind):
     return pol
 
 
+def via_parser(pol, part=None):
+    """The policy as the SERVER would have it: written as a policy file and read back by the
+    library's own parser (kmip.core.policy.read_policy_from_file). The reference model keeps judging
+    against the policy as written. Shapes no file can express ('groups': {}) are installed directly."""
+    import json
+    import os
+    import tempfile
+    from kmip.core import policy as core_policy
+
+    def table(t):
+        return {ot.name: {op.name: perm.name for op, perm in ops.items()} for ot, ops in t.items()}
+    doc = {}
+    if 'preset' in pol:
+        doc['preset'] = table(pol['preset'])
+    if 'groups' in pol:
+        doc['groups'] = {g: table(t) for g, t in pol['groups'].items()}
+    d = tempfile.mkdtemp(prefix='verif-c03p-', dir=W.SCRATCH_BASE)
+    try:
+        f = os.path.join(d, 'policy.json')
+        with open(f, 'w') as fh:
+            json.dump({'user': doc}, fh)
+        try:
+            parsed = core_policy.read_policy_from_file(f)
+        except ValueError:
+            if part is not None:
+                part.count('policies_not_expressible_as_file')
+            return pol
+        if part is not None:
+            part.count('policies_through_parser')
+        return parsed.get('user', {})
+    finally:
+        import shutil
+        shutil.rmtree(d, ignore_errors=True)
+
+
 def policy_shapes():
     out = []
     for pk in CELL_KINDS:
@@ -75,7 +119,13 @@ def policy_shapes():
         for g1 in CELL_KINDS:
             for g2 in CELL_KINDS:
                 out.append((pk, g1, g2))
+    out += MIXED_SHAPES
     return out
+
+
+MIXED_SHAPES = [('MIXED', 'nogroups', 'nogroups'), ('MIXED2', 'nogroups', 'nogroups'),
+                ('absent', 'MIXED', 'absent'), ('OWNER', 'MIXED', 'MIXED2'), ('MIXED', 'MIXED2', 'DISALLOW'),
+                ('DISALLOW', 'absent', 'MIXED'), ('MIXED2', 'emptygroups', 'emptygroups')]
 
 
 GROUPS = [None, [], ['g1'], ['g2'], ['g1', 'g2'], ['g2', 'g1'], ['g3'], ['g3', 'g1']]
@@ -91,7 +141,8 @@ def _table_worker(task):
     try:
         eng = w.engine
         for shape in shapes:
-            store = W.default_policies({'user': make_policy(*shape)})
+            written = W.default_policies({'user': make_policy(*shape)})
+            store = W.default_policies({'user': via_parser(make_policy(*shape), part)})
             eng._operation_policies = store
             for pname in ('user', 'default', 'public', 'nosuch'):
                 if pname != 'user' and shape != shapes[0]:
@@ -102,7 +153,7 @@ def _table_worker(task):
                             for op in ADDR_OPS:
                                 got = eng._is_allowed_by_operation_policy(
                                     pname, (user, groups), 'alice', t, op)
-                                exp = ref.allowed(store, pname, user, groups, 'alice', t, op, P)
+                                exp = ref.allowed(written, pname, user, groups, 'alice', t, op, P)
                                 part.count('decisions')
                                 if got:
                                     part.count('decisions_allow')
@@ -211,8 +262,9 @@ def missing_answer(w, name, version, item_builder, user, groups):
 
 
 def enforce(shape, kinds, activate, part, label):
-    policies = W.default_policies({'user': make_policy(*shape)})
-    w0, uids, helpers, extra = build_store(policies, kinds, activate)
+    policies = W.default_policies({'user': make_policy(*shape)})       # as written: for the reference
+    installed = W.default_policies({'user': via_parser(make_policy(*shape), part)})   # as parsed
+    w0, uids, helpers, extra = build_store(installed, kinds, activate)
     try:
         dump0 = w0.dump()
         owners0 = owner_rows(dump0)
@@ -372,6 +424,7 @@ def decisive_shapes(tier):
         for g1 in core + ['absent', 'op_missing']:
             for g2 in (['ALL', 'absent'] if tier == 'quick' else core + ['absent']):
                 out.append((pk, g1, g2))
+    out += MIXED_SHAPES[:4] if tier == 'quick' else MIXED_SHAPES
     return out
 
 
@@ -411,7 +464,13 @@ def run(tier, seed):
         decision_table_exhaustive=True,
         policy_shapes_table=len(shapes), policy_shapes_enforced=len(tasks),
         distinct_probe_outcome_classes=len(outcomes), exhaustive=True,
-        explanation="(a) complete product policy name x policy shape (preset x g1 x g2 cell kinds, "
+        policies_installed_through_the_parser=rep.counters.get('policies_through_parser', 0),
+        policies_not_expressible_as_file=rep.counters.get('policies_not_expressible_as_file', 0),
+        explanation="Every user policy is written as a policy file and read back by the library's own "
+                    "parser before it is installed (the reference judges the policy as written); "
+                    "besides the uniform shapes there are 7 shapes with NON-uniform sections (per "
+                    "object type different permissions and different sets of operations). "
+                    "(a) complete product policy name x policy shape (preset x g1 x g2 cell kinds, "
                     "no/empty groups section) x requester x group list x object type x operation on the "
                     "engine's real decision entry point. (b) for every decisive policy shape and "
                     "every one-hot (single operation / single object type) policy: a real store is "
